@@ -68,7 +68,7 @@ def gen(rng):
     base = ("proj/" + srcrel).rstrip("/")
     dirs = ["", "net", "net/tls", "net/tls/deep", "net/tls/deep/er", "util", "d.rs", "x.rsx", ".hid"]
     names = ["main.rs", "lib.rs", "a.RS", "a.rsx", "a.rs.bak", "rs", ".rs", "a.", "a.rs~", "b.txt", ".hidden.rs", "a.b.rs", "Makefile",
-             "c.Rs", "rsfile", "x.rs.rs", "notes.bak"]
+             "c.Rs", "rsfile", "x.rs.rs", "notes.bak", "a.xrs", "b.srs", "c.ttxt", "d.r", "e.s"]
     for _ in range(rng.randrange(6, 16)):
         d = rng.choice(dirs)
         nm = rng.choice(names)
@@ -80,7 +80,7 @@ def gen(rng):
             tags.add("dir_named_rs")
         if d.count("/") >= 3:
             tags.add("nested_depth4")
-        if nm in ("a.RS", "a.rsx", "a.rs.bak", "rs", ".rs", "a.", "a.rs~", "c.Rs", "rsfile"):
+        if nm in ("a.RS", "a.rsx", "a.rs.bak", "rs", ".rs", "a.", "a.rs~", "c.Rs", "rsfile", "a.xrs", "b.srs", "c.ttxt", "d.r", "e.s"):
             tags.add("lookalike_ext")
         if nm == ".hidden.rs":
             tags.add("hidden_rs")
